@@ -305,7 +305,7 @@ def main(tier, seed):
                 "alphabet; each tree built post-order, reversed siblings, from_dict, relabelled, in EVERY compatible SMC data order (n<=3) and via "
                 "prune-regraft; log_p, log_p_one and the fused variant vs the closed-form model with the literal-sum data term; all pairs of trees for "
                 "==/hash; every tree over 3 clustered data points produced by the real loader from input + cluster files in three layouts x 1-3 samples "
-                "x outlier prior {0,1e-4,0.3} (outlier terms of the model taken from the files); non-trivial = tree with >= 2 clones or an outlier")
+                "x outlier prior {0,1e-4,0.3} (outlier terms of the model taken from the files); trees that share a grafted subtree object with a tree edited in place keep the model's value and their identity; non-trivial = tree with >= 2 clones or an outlier")
     chk.assumptions = ["reference model: mc/oracle.py ref_log_joint (closed formulas from the statement; the 1/1000-per-extra-root penalty includes its normaliser)",
                        "tolerance 1e-8 relative", "grid size 3 so the data term is the literal sum"]
     items = []
@@ -358,6 +358,19 @@ def main(tier, seed):
         for pr in r["problems"][:2]:
             chk.violation({"sub": "density-loaded", "layout": r["item"][0], "samples": r["item"][1], "what": pr.split(":")[0][:30] if "=" not in pr else pr.split(":")[-1].split("=")[0].strip()},
                           {"problem": pr}, {"loaded": list(r["item"])})
+    # the value depends on the tree alone: several live trees that went through one grafted subtree object, one of them edited in place
+    from mc.checks import c06
+
+    iso = [(4, si, seed, "model") for si in range(len(oracle.all_states(3, outliers=True)))]
+    if tier == "thorough":
+        iso += [(5, si, seed, "model") for si in range(len(oracle.all_states(4, outliers=True)))]
+    for r in pool_imap(c06.isolation_work, iso, chunksize=2):
+        chk.evaluations += r["n"]
+        chk.transitions += r["n"]
+        chk.states.add(("isolation",) + tuple(r["item"][:2]))
+        chk.nontrivial.add(("isolation",) + tuple(r["item"][:2]))
+        for pr in r["problems"][:2]:
+            chk.violation({"sub": "isolation", "what": pr["what"].split(":")[0][:60]}, {"problem": pr["what"], "context": pr["ctx"]}, {"isolation": list(r["item"])})
     for n in ((2, 3) if tier == "quick" else (2, 3, 4)):
         probs, pairs = identity_cross(n)
         chk.evaluations += pairs
@@ -372,6 +385,12 @@ def replay(path):
     rp = body["replay"]
     if "large" in rp:
         r = large_case((tuple(rp["large"][0]), rp["large"][1], rp["large"][2], rp["large"][3]))
+        print(r["problems"])
+        return 1 if r["problems"] else 0
+    if "isolation" in rp:
+        from mc.checks import c06
+
+        r = c06.isolation_work(tuple(rp["isolation"]))
         print(r["problems"])
         return 1 if r["problems"] else 0
     if "loaded" in rp:
